@@ -3,4 +3,5 @@ import BalmProofs.AttrTest
 import BalmProofs.Bfs
 import BalmProofs.Drivers
 import BalmProofs.ReachSpec
+import BalmProofs.SymLoopSpec
 /-! Property C12: theorems are listed in `obligations.json`; see DESIGN.md section 6. -/
